@@ -23,7 +23,7 @@ BOUNDS = ["every serial day 0..2958465 as one symbolic integer",
           "DATE carry: years 1900..9990, months -40..60, days -40..60",
           "EDATE/EOMONTH: month shifts -1200..1200 (quick: -14..14)",
           "YEARFRAC: bases 0..4, dates over the whole range (basis 1: within 400 days)",
-          "HOUR/MINUTE/SECOND: every whole second of a day, binary64, per-hour slices (thorough) / 4 slices (quick)"]
+          "HOUR/MINUTE/SECOND: whole seconds of a day in binary64, 10-minute slices: 00:00, 11:50, 12:00, 23:50 on day 0 (quick); all 144 slices on day 0 and day 45000 (thorough)"]
 ASSUMPTIONS = ["CrossHair's model of datetime/timedelta arithmetic (proleptic Gregorian ordinal arithmetic on symbolic ints)",
                "floats as exact reals in YEARFRAC"]
 
@@ -272,6 +272,39 @@ def ob_serial_range(n: int) -> Optional[bool]:
         same(WEEKDAY(n), NUM_ERROR)
 
 
+# ------------------------------------------------------------------ time of day (Engine K, binary64)
+def kb_time(E, slice_no, day, width=600):
+    """HOUR/MINUTE/SECOND of the serial day + s/86400 (binary64, s a whole second of the given 10-minute slice) are s decomposed"""
+    import z3
+    from vf.kengine import numeric as KN
+    from vf.kengine import strings as KS
+    from vf.kengine.sym import RNE, SBool, SFloat
+    lo = width * slice_no
+    if E.concrete is not None:
+        s = E.int("s")
+        if not lo <= s < lo + width:
+            return None
+        x = day + s / 86400
+        return (D.hour(x), D.minute(x), D.second(x)) == (s // 3600, s % 3600 // 60, s % 60)
+    sb = z3.BitVec("s", 32)
+    E.symbols["s"] = ("bv", sb)
+    E.add(z3.And(z3.UGE(sb, lo), z3.ULT(sb, lo + width)))
+    f64 = z3.Float64()
+    frac = z3.fpDiv(RNE, z3.fpSignedToFP(RNE, sb, f64), z3.FPVal(86400.0, f64))
+    x = SFloat(z3.fpAdd(RNE, z3.FPVal(float(day), f64), frac), E)
+    E.fp_int_as_float = True
+    E.fresh_checks = True
+    with KS.patched(D, {"math": KN.KMath(), "round": KN.k_round}):
+        h, m, sec = D.hour(x), D.minute(x), D.second(x)
+
+    def fp_of(bv):
+        return z3.fpSignedToFP(RNE, bv, f64)
+    eh = fp_of(z3.UDiv(sb, z3.BitVecVal(3600, 32)))
+    em = fp_of(z3.UDiv(z3.URem(sb, z3.BitVecVal(3600, 32)), z3.BitVecVal(60, 32)))
+    es = fp_of(z3.URem(sb, z3.BitVecVal(60, 32)))
+    return SBool(z3.And(z3.fpEQ(h.e, eh), z3.fpEQ(m.e, em), z3.fpEQ(sec.e, es)), E)
+
+
 def obligations(tier):
     obs = []
 
@@ -294,6 +327,10 @@ def obligations(tier):
     add("yearfrac_range", "ob_yearfrac_range", (), 200, group="yearfrac")
     for basis in (2, 3):
         add(f"yearfrac_sym[{basis}]", "ob_yearfrac_sym", (basis,), 300, group="yearfrac")
+    slices = (0, 71, 72, 143) if tier == "quick" else tuple(range(144))
+    for sl in slices:
+        for day in ((0,) if tier == "quick" else (0, 45000)):
+            add(f"time_of_day[{sl * 10 // 60:02d}:{sl * 10 % 60:02d}+10min,day={day}]", "kb_time", (sl, day), 600, engine="K", group="time")
     if tier == "thorough":
         add("civil", "ob_civil", (), 3000, group="calendar")
         add("month_end", "ob_month_end", (), 3000, group="calendar")
